@@ -287,7 +287,7 @@ def check(ctx):
                 ctx.violation('C05.R2', UPER, uc.methods[meth], '%s::%s.%s' % (UPER, uc.name, meth),
                               'the UPER override emits a field shape its PER parent does not have even after removing alignment: %s' % protocol.show_path(miss[0]),
                               stmt='uper shape not in per')
-    if n2 < 10:
+    if n2 < 4:        # (a refactoring that moves the UPER differences into hooks of the PER classes leaves few overrides: six in the T2 patch)
         raise AnalysisError('C05.R2 compared only %d uper overrides' % n2)
 
     # ---- R3: the SET cell hands a true flag to a members compiler that sorts under that flag
